@@ -4,7 +4,7 @@ import json
 import re
 
 import cssread
-from vlib import Check, RunnerPool, compile_job, driver, log
+from vlib import Check, RunnerPool, compile_job, driver, log, hexs, unhex
 
 FEATS = 3
 TYPES = [None, "all", "screen", "print"]
@@ -270,10 +270,11 @@ def evaluate(ck, cases, pool, direct_only=False):
                          + " ".join(l_enc(l) for l in ob[1]))
         else:
             lines.append("ping")
+        lines.append("media nop " + " ".join(l_enc(l) for l in lv))
     outs = driver(lines)
     failing = []
     for i, (lv, ins) in enumerate(cases):
-        model, verdict = outs[2 * i], outs[2 * i + 1]
+        model, verdict, nop = outs[3 * i], outs[3 * i + 1], outs[3 * i + 2]
         ob = impl[i]
         src = source_for(0, lv, ins)
         m = re.match(r"ok (\d) (.*) \| (.*)$", model)
@@ -281,6 +282,10 @@ def evaluate(ck, cases, pool, direct_only=False):
             ck.cov["unsupported_dropped"] += 1
             continue
         inscope, asfound, spec = m.group(1) == "1", m.group(2), m.group(3)
+        ck.hist("D22-class(noOverPop=false)" if nop == "ok 0" else "outside-D22-class")
+        if nop != "ok 0" and asfound != spec and not direct_only:
+            # theorem chainRun_asFound_eq says this cannot happen; a model/driver inconsistency
+            ck.cov["model_disagreements"] += 1
         nontrivial = any(q[0] or q[1] for l in lv for q in l)
         ck.count(("c17", [l_enc(l) for l in lv], ins), nontrivial)
         ck.hist(f"levels={len(lv)}")
@@ -301,10 +306,349 @@ def evaluate(ck, cases, pool, direct_only=False):
         if not inscope:
             continue
         if ob[0] in ("status", "unparsed") or verdict != "ok holds":
-            tags = ["D22"] if (asfound != spec and obs == asfound) else []
+            # D22 only inside its class: some merge step finds the next enclosing level covered by the
+            # merged sources (`noOverPop` false); outside it C17_asFound_chain_sound holds
+            tags = ["D22"] if (asfound != spec and obs == asfound and nop == "ok 0") else []
             failing.append({"source": src, "levels": [l_text(l) for l in lv], "impl_observation": obs,
                             "verdict": verdict, "expected_by_property":
                             "body reached by exactly the environments satisfying every level", "tags": tags})
+    return failing
+
+
+# ------------------------------------------------------------------------------------------------
+# Text level (round 3): the parser/printer of media queries, level-4 syntax, wrappers.
+# A text case is a list of items: ("m", source, resolved) — an @media rule written `source` whose
+# text after interpolation is `resolved` (what MediaQueryParser sees) — ("s", k) a style rule /
+# `@at-root` that keeps the media context, ("b",) `@supports`, ("e", k) `@at-root (without: media|all)`.
+# Mode W writes the whole list as ONE interpolation `#{"<text>"}`: resolved == text, byte for byte
+# (odd spacing, keyword case, commas, nested brackets, malformed texts).  Mode S writes source syntax
+# (parts interpolated, odd spacing); its resolved text is the normal form the stylesheet parser
+# (parse/stylesheet.rs:2890-3086) leaves: identifiers as spelled, ` and `/` or `/`not ` lower-case,
+# `name: value`, `a <= b`.
+
+T_TYPES = ["screen", "print", "all", "tv", "SCREEN", "Print", "ALL", "Screen", "aLL"]
+T_MODS = ["not", "only", "NOT", "Only", "ONLY", "Not"]
+# (source spellings, resolved normal form, raw W-mode spellings)
+T_CONDS = [
+    (["(f0)", "( f0 )", "(f0 )", '(#{"f0"})', "(#{f0})"], "(f0)", ["(f0)", "( f0 )", "(f0  )", "(F0)"]),
+    (["(f1)", "(  f1)", '(#{"f1"})'], "(f1)", ["(f1)", "(\tf1)", "(f1 )"]),
+    (["(f2)", "(f2  )"], "(f2)", ["(f2)", "( f2)"]),
+    (["(min-width: 100px)", "(min-width:100px)", "( min-width : 100px )", '(min-width: #{"100px"})'],
+     "(min-width: 100px)", ["(min-width: 100px)", "(min-width:100px)", "(min-width :  100px)"]),
+    (["(width >= 600px)", "(width>=600px)", "( width >=600px )"], "(width >= 600px)",
+     ["(width >= 600px)", "(width>=600px)", "(width  >=   600px)"]),
+    (["(400px <= width <= 700px)", "(400px<=width<=700px)"], "(400px <= width <= 700px)",
+     ["(400px <= width <= 700px)", "(400px<=width<=700px)"]),
+    (["((f0) and (f1))", "( (f0)   and (f1) )", "((f0) AND (f1))"], "((f0) and (f1))",
+     ["((f0) and (f1))", "((f0)  AND (f1))", "(a (b [c] d) e)", "(a [b, c] d)"]),
+    (["(not (f2))"], "(not (f2))", ["(not (f2))", "(not  (f2))", "(NOT (f2))"]),
+]
+T_BAD_W = ["(a) and (b) or (c)", "screen and(f0)", "screen(f0)", "not", "(a [b) c])", "()", "screen,", "",
+           "screen and (f0) and not (f1)", "(f0) and not (f1)", "only screen and not(f0)", "screen and", "(f0",
+           "f0)", "screen print tv", "not screen and", "(f0) or(f1)", ", screen", "5px", "(f0) (f1)", "not(f0)"]
+T_BAD_S = ["(f0) and (f1) or (f2)", "screen and(f0)", "screen (f0)", "(f0) or (f1) and (f2)", "not", "()"]
+
+
+def _case(w, rng):
+    r = rng.random()
+    return w.upper() if r < 0.25 else (w.capitalize() if r < 0.4 else w)
+
+
+def _sp(rng, need=True):
+    r = rng.random()
+    if need:
+        return " " if r < 0.6 else ("  " if r < 0.8 else ("\t" if r < 0.9 else "   "))
+    return "" if r < 0.4 else (" " if r < 0.8 else "  ")
+
+
+def t_query(rng, mode):
+    """One query: (source text, resolved text, shape tag)."""
+    W = mode == "W"
+    shape = rng.choice(["type", "type", "type+conds", "type+conds", "mod+type", "mod+type+conds", "conds",
+                        "conds", "or", "not-cond", "type+not-cond"])
+    src, res = [], []      # parallel token lists; entries (text, kind) kind in id|kw|cond
+
+    def ident(w):
+        src.append((w, "id")); res.append((w, "id"))
+
+    def kwd(w):
+        src.append((_case(w, rng), "kw")); res.append((w, "kw"))
+
+    def cond():
+        c = rng.choice(T_CONDS)
+        if W:
+            t = rng.choice(c[2]); src.append((t, "cond")); res.append((t, "cond"))
+        else:
+            src.append((rng.choice(c[0]), "cond")); res.append((c[1], "cond"))
+
+    def conds(op, n):
+        for k in range(n):
+            if k:
+                kwd(op)
+            cond()
+
+    n = rng.choice([1, 1, 2, 3])
+    if shape == "type":
+        ident(rng.choice(T_TYPES))
+    elif shape == "type+conds":
+        ident(rng.choice(T_TYPES)); kwd("and"); conds("and", n)
+    elif shape == "mod+type":
+        ident(rng.choice(T_MODS)); ident(rng.choice(T_TYPES))
+    elif shape == "mod+type+conds":
+        ident(rng.choice(T_MODS)); ident(rng.choice(T_TYPES)); kwd("and"); conds("and", n)
+    elif shape == "conds":
+        conds("and", n)
+    elif shape == "or":
+        conds("or", max(2, n))
+    elif shape == "not-cond":
+        kwd("not"); cond()
+    else:
+        ident(rng.choice(T_TYPES)); kwd("and"); kwd("not"); cond()
+    # spacing: white space is required after a keyword and between identifiers, optional before a keyword
+    # that follows `)`
+    def join(toks, odd):
+        out = ""
+        for k, (t, kind) in enumerate(toks):
+            if k:
+                prev = toks[k - 1][1]
+                need = not (prev == "cond" and kind == "kw")
+                out += _sp(rng, need) if odd else " "
+            out += t
+        return out
+    if W:
+        text = join(src, True)
+        return text, text, shape
+    if rng.random() < 0.25:
+        # interpolate a part: an identifier, or a whole `and` sequence of conditions
+        k = rng.randrange(len(src))
+        if src[k][1] == "id":
+            src[k] = ('#{"%s"}' % src[k][0], "id")
+        elif src[k][1] == "cond" and '"' not in src[k][0] and (k == 0 or src[k - 1][1] == "kw") and k > 0:
+            src[k] = ('#{"%s"}' % res[k][0], "cond")
+    return join(src, True), join(res, False), shape
+
+
+def t_list(rng):
+    """One @media prelude: (source, resolved, tags)."""
+    r = rng.random()
+    if r < 0.025:
+        t = rng.choice(T_BAD_W)
+        return '#{"%s"}' % t, t, ["W", "malformed"]
+    if r < 0.04:
+        t = rng.choice(T_BAD_S)
+        return t, t, ["S", "stylesheet-syntax-error"]
+    mode = "W" if r < 0.5 else "S"
+    n = rng.choice([1, 1, 1, 2, 2, 3])
+    qs = [t_query(rng, mode) for _ in range(n)]
+    tags = [mode, f"queries={n}"] + sorted({"shape:" + q[2] for q in qs})
+    if mode == "W":
+        sep = lambda: _sp(rng, False) + "," + _sp(rng, False)
+        text = _sp(rng, False) + "".join((sep() if k else "") + q[0] for k, q in enumerate(qs)) + _sp(rng, False)
+        return '#{"%s"}' % text, text, tags
+    if n > 1 and rng.random() < 0.2:
+        # a comma list produced by one interpolation, after a first query written in source syntax
+        tail = ", ".join(q[1] for q in qs[1:])
+        if '"' not in tail:
+            return qs[0][0] + ' , #{"%s"}' % tail, qs[0][1] + ", " + tail, tags + ["interp-list"]
+    src = "".join((_sp(rng, False) + "," + _sp(rng, False) if k else "") + q[0] for k, q in enumerate(qs))
+    return src, ", ".join(q[1] for q in qs), tags
+
+
+def t_case(rng):
+    depth = rng.choice([1, 1, 2, 2, 2, 3, 3, 4])
+    items = []
+    for d in range(depth):
+        if d and rng.random() < 0.3:
+            k = rng.random()
+            if k < 0.35:
+                items.append(rng.choice([("s", "rule"), ("s", "atroot"), ("o",)]))
+            elif k < 0.75:
+                items.append(("b",))
+            else:
+                items.append(("e", rng.choice(["media", "all"])))
+        items.append(("m",) + t_list(rng))
+    return items
+
+
+def t_source(idx, items):
+    s = f"x {{ i: {idx} }}"
+    for n, it in enumerate(reversed(items)):
+        if it[0] == "m":
+            s = f"@media {it[1]} {{ {s} }}"
+        elif it[0] == "s":
+            s = {"rule": f"y{n} {{ {s} }}", "atroot": f"@at-root {{ {s} }}"}[it[1]]
+        elif it[0] == "o":
+            s = f"@at-root (with: media) {{ {s} }}"
+        elif it[0] == "b":
+            s = f"@supports (a: b) {{ {s} }}"
+        else:
+            s = f"@at-root (without: {it[1]}) {{ {s} }}"
+    return s
+
+
+def raw_find(css):
+    """`i: N` declarations of expanded-style output with the byte-exact texts of the enclosing @media
+    preludes (tools/cssread.py collapses white space inside preludes; generated texts have no newline,
+    brace, quote or semicolon, so every rule head is one line ending in ` {`)."""
+    found, stack = {}, []
+    for line in css.split("\n"):
+        t = line.lstrip(" ")
+        if t.endswith(" {"):
+            stack.append(t[:-2])
+        elif t == "}":
+            stack.pop()
+        else:
+            m = re.match(r"i: (\d+);$", t)
+            if m:
+                found[int(m.group(1))] = [h[len("@media "):] for h in stack if h.startswith("@media ")]
+    return found
+
+
+def t_enc(items):
+    return " ".join(("m:" + hexs(it[2])) if it[0] == "m" else it[0] for it in items)
+
+
+# minimised text cases that run first on every run
+T_CORPUS = [
+    [("m", "(f0)", "(f0)", []), ("m", "not (f1)", "not (f1)", [])],
+    [("m", "ONLY screen", "ONLY screen", []), ("m", "Screen and (f1)", "Screen and (f1)", [])],
+    [("m", "ALL", "ALL", []), ("b",), ("m", "all and (f1)", "all and (f1)", [])],
+    [("m", "screen", "screen", []), ("e", "media"), ("m", "print", "print", [])],
+    [("m", "screen", "screen", []), ("m", "print", "print", []), ("m", '#{"bad("}', "bad(", [])],
+    [("m", '#{"(not (f0))"}', "(not (f0))", [])],
+    [("m", '#{"ONLY  Screen   and ( f0  x )and (f1)"}', "ONLY  Screen   and ( f0  x )and (f1)", [])],
+    [("m", "(f0) or (f1)", "(f0) or (f1)", []), ("m", "(f2)", "(f2)", [])],
+    [("m", "screen", "screen", []), ("b",), ("m", "(f0)", "(f0)", []), ("m", "(f1)", "(f1)", [])],
+    # same query in two spellings: `through` compares the spelled queries
+    [("m", "screen", "screen", []), ("m", "SCREEN, not screen and (f0)", "SCREEN, not screen and (f0)", []),
+     ("m", "print", "print", [])],
+]
+
+
+def gen_text_cases(ck, tier):
+    rng = ck.rng
+    n = 2500 if tier == "quick" else 30000
+    return list(T_CORPUS) + [t_case(rng) for _ in range(n)]
+
+
+def evaluate_text(ck, tcases, pool):
+    """Text-level tie (byte-exact preludes, error class) and P̂ (truth tables + text clause) on grass's output."""
+    model = driver(["media tchain " + t_enc(items) for items in tcases])
+    parsed = []
+    for items, out in zip(tcases, model):
+        m = re.match(r"ok (\d) (.*) \| (.*)$", out)
+        if m and any(it[0] == "m" and "stylesheet-syntax-error" in it[3] for it in items):
+            # rejected by the stylesheet parser (parse/stylesheet.rs:2890 ff.) before anything is evaluated,
+            # reachable or not; the model covers the parser that runs after interpolation
+            parsed.append((False, "error", "error"))
+        else:
+            parsed.append(None if not m else (m.group(1) == "1", m.group(2), m.group(3)))
+    # batches: cases the model expects to fail go alone (an error aborts a whole stylesheet)
+    idx_batch = [i for i, p in enumerate(parsed) if p and p[1] != "error"]
+    idx_single = [i for i, p in enumerate(parsed) if p and p[1] == "error"]
+    impl = {}
+    B = 100
+    jobs, spans = [], []
+    for off in range(0, len(idx_batch), B):
+        chunk = idx_batch[off:off + B]
+        jobs.append(compile_job("\n".join(t_source(i, tcases[i]) for i in chunk), syntax="scss"))
+        spans.append(chunk)
+    for i in idx_single:
+        jobs.append(compile_job(t_source(i, tcases[i]), syntax="scss"))
+        spans.append([i])
+    answers = pool.map(jobs, timeout=20)
+    retry = []
+    for chunk, ans in zip(spans, answers):
+        if ans.get("status") != "ok":
+            if len(chunk) == 1:
+                impl[chunk[0]] = ("error",) if ans.get("status") == "err" else ("status", ans.get("status"))
+            else:
+                retry += chunk
+            continue
+        try:
+            cssread.parse(ans["css"])
+            found = raw_find(ans["css"])
+        except (cssread.IllFormed, IndexError) as e:
+            for i in chunk:
+                impl[i] = ("status", "ill-formed-css", str(e))
+            continue
+        for i in chunk:
+            impl[i] = ("levels", found[i]) if i in found else ("dropped",)
+    if retry:
+        for i, ans in zip(retry, pool.map([compile_job(t_source(i, tcases[i]), syntax="scss") for i in retry], timeout=10)):
+            if ans.get("status") != "ok":
+                impl[i] = ("error",) if ans.get("status") == "err" else ("status", ans.get("status"))
+                continue
+            found = raw_find(ans["css"])
+            impl[i] = ("levels", found[i]) if i in found else ("dropped",)
+    # P̂ on the implementation's own output
+    # (an `@at-root (without: media)` splits the chain into segments; the body is reached through the last
+    # segment only, and it is rightly dropped when ANY segment has an empty intersection: the rule that
+    # would have contained the @at-root was itself dropped)
+    lines, where = [], []
+    for i, items in enumerate(tcases):
+        ob = impl.get(i)
+        segs = [[]]
+        for it in items:
+            if it[0] == "e":
+                segs.append([])
+            elif it[0] == "m":
+                segs[-1].append(it[2])
+        head = lambda ins: f"media tcheck {len(ins)} " + " ".join(hexs(t) for t in ins)
+        first = len(lines)
+        if ob and ob[0] == "dropped":
+            # every prefix: a malformed text below the point where the chain became empty is never parsed
+            lines += [head(sg[:k]) + " dropped" for sg in segs for k in range(1, len(sg) + 1)]
+        elif ob and ob[0] == "levels":
+            lines.append(head(segs[-1]) + " levels " + " ".join(hexs(t) for t in ob[1]))
+        where.append((first, len(lines)))
+    vout = driver(lines) if lines else []
+    verdicts = []
+    for a, b in where:
+        vs = vout[a:b]
+        verdicts.append("none" if not vs else ("ok holds" if "ok holds" in vs else
+                                              ("unsupported" if "unsupported" in vs else vs[0])))
+    failing = []
+    for i, items in enumerate(tcases):
+        src = t_source(0, items)
+        if parsed[i] is None:
+            ck.cov["unsupported_dropped"] += 1
+            ck.hist("text:unsupported")
+            continue
+        inscope, asfound, spec = parsed[i]
+        ob = impl[i]
+        ck.count(("c17t", t_enc(items), [it[1] for it in items if len(it) > 1]), True)
+        ck.hist(f"text:media-levels={sum(1 for it in items if it[0] == 'm')}")
+        for it in items:
+            if it[0] == "m":
+                for tg in it[3]:
+                    ck.hist("text:" + tg)
+            else:
+                ck.hist("text:wrapper:" + {"s": "style/", "b": "supports", "e": "at-root-without-", "o": "at-root-with-media"}[it[0]] + (it[1] if len(it) > 1 else ""))
+        if ob[0] == "levels":
+            obs = "levels" + "".join(" " + hexs(t) for t in ob[1])
+        else:
+            obs = ob[0] if ob[0] in ("dropped", "error") else f"{ob}"
+        ck.hist("text:impl:" + ob[0] + (str(len(ob[1])) if ob[0] == "levels" else ""))
+        ck.hist("text:inscope" if inscope else "text:out-of-scope")
+        show = lambda o: " ".join(repr(unhex(w)) if k else w for k, w in enumerate(o.split())) if o.startswith("levels") else o
+        if i % 499 == 0:
+            ck.sample({"source": src, "impl": show(obs), "model": show(asfound), "in_scope": inscope})
+        if obs != asfound:
+            ck.cov["model_disagreements"] += 1
+            if len(ck.disagreements) < 6:
+                ck.disagreements.append({"source": src, "model_observation": show(asfound), "impl_observation": show(obs)})
+        if not inscope or ob[0] == "error":
+            continue
+        if verdicts[i] == "unsupported":
+            ck.hist("text:P-hat-skipped(too many distinct conditions)")
+            continue
+        if ob[0] == "status" or verdicts[i] != "ok holds":
+            tags = ["D22"] if (asfound != spec and obs == asfound) else []
+            failing.append({"source": src, "levels": [it[2] for it in items if it[0] == "m"], "impl_observation": show(obs),
+                            "verdict": verdicts[i], "expected_by_property":
+                            "body reached by exactly the environments satisfying every enclosing, not escaped level; "
+                            "condition texts and type/modifier spellings taken from the sources", "tags": tags})
     return failing
 
 
@@ -324,10 +668,13 @@ def run(tier, seed):
     pool = RunnerPool()
     cases = gen_cases(ck, tier)
     failing = evaluate(ck, cases, pool)
+    failing += evaluate_text(ck, gen_text_cases(ck, tier), pool)
     if (not ck.proof["ok"] or ck.cov["model_disagreements"] or ck.changed) and not [f for f in failing if not f["tags"]] and tier == "quick":
         log("[C17] proof/correspondence broken or modelled sources changed: enlarging the search")
         extra = gen_cases(ck, "thorough")[len(cases):]
         failing += evaluate(ck, extra, pool, direct_only=True)
+    for d in ck.disagreements[:8]:
+        log("[C17] model/impl disagreement: " + json.dumps(d))
     failing.sort(key=lambda f: len(f["source"]))
     reported = 0
     for f in failing:
